@@ -15,6 +15,31 @@
 #include <memory>
 #include <algorithm>
 #include <boost/intrusive/rbtree.hpp>
+
+// Recording of std::nth_element: partitionEqually/median_element (shark/Core/utility/functional.h) call
+// std::nth_element on the KeyValuePair range of the node being split.  While a kd-tree is built the harness
+// records the arrangement the call leaves behind (point indices, median position); the construction model
+// (C17Build.kd_build) gets these arrangements as its nth_element oracle.  No source change: the name is
+// redirected for the Shark headers only.
+namespace c17rec {
+	static bool on = false;
+	struct Call { long mp; std::vector<long> idx; };
+	static std::vector<Call> calls;
+	template<class E> auto index_of(E const& e, int) -> decltype((long)e.value.index()) { return (long)e.value.index(); }
+	template<class E> long index_of(E const&, long) { return -1; }
+}
+namespace std {
+	template<class It> void c17_nth_element(It b, It n, It e) {
+		std::nth_element(b, n, e);
+		if (c17rec::on) {
+			c17rec::Call c; c.mp = (long)(n - b);
+			for (It i = b; i != e; ++i) c.idx.push_back(c17rec::index_of(*i, 0));
+			c17rec::calls.push_back(c);
+		}
+	}
+	template<class It, class C> void c17_nth_element(It b, It n, It e, C c) { std::nth_element(b, n, e, c); }
+}
+#define nth_element c17_nth_element
 #define private public
 #define protected public
 #include <shark/Models/Trees/KDTree.h>
@@ -24,6 +49,7 @@
 #include <shark/Algorithms/NearestNeighbors/SimpleNearestNeighbors.h>
 #undef private
 #undef protected
+#undef nth_element
 #include <shark/Models/NearestNeighborModel.h>
 #include <shark/Models/Kernels/LinearKernel.h>
 #include <shark/Models/Kernels/PolynomialKernel.h>
@@ -102,11 +128,21 @@ int main(int argc, char** argv) {
 				rview.reset(new View(w->reg.inputs()));
 				w->poly.reset(new PolynomialKernel<RealVector>(2, 1.0));
 				TreeConstruction tc = bucket ? TreeConstruction(0, (unsigned int)bucket) : TreeConstruction();
+				c17rec::calls.clear(); c17rec::on = (w->kind == "kd");
 				w->tree.reset(build(w->kind, w->cls.inputs(), w->view.get(), *w, tc));
+				c17rec::on = false;
 				w->rtree.reset(build(w->kind, w->reg.inputs(), rview.get(), *w, tc));
 				out << "D n=" << w->n << " nodes=" << w->tree->nodes();
 				if (w->kind == "kd") { out << " tree="; dumpKD((KDTree<RealVector> const*)w->tree.get(), out); }
 				out << " misplaced=" << misplaced(w->tree.get(), w->pts);
+				if (w->kind == "kd") {       // one entry per std::nth_element call: <median position>:<indices after the call>
+					out << " nth=";
+					for (std::size_t c = 0; c < c17rec::calls.size(); ++c) {
+						out << (c ? ";" : "") << c17rec::calls[c].mp << ":";
+						for (std::size_t i = 0; i < c17rec::calls[c].idx.size(); ++i) out << (i ? "," : "") << c17rec::calls[c].idx[i];
+					}
+					if (c17rec::calls.empty()) out << "-";
+				}
 			} else if (cmd == "Q") {
 				RealVector q(w->dim); for (std::size_t d = 0; d < w->dim; ++d) { long h; is >> h; q(d) = 0.5 * (double)h; }
 				out << "Q it=";
